@@ -35,6 +35,15 @@ def rigcall(w, allowed, fn, *args, **kwargs):
     except (SimAbort, Violation, KeyboardInterrupt):
         raise
     except allowed as e:
+        # a documented error must also be able to say what went wrong
+        try:
+            str(e)
+            repr(e)
+        except Exception as e2:
+            w.violate("E", "%s raised %s, whose message cannot be formatted "
+                      "(%s: %s)" % (getattr(fn, "__name__", fn),
+                                    type(e).__name__, type(e2).__name__, e2),
+                      kind="unprintable-exception", exc=type(e).__name__)
         return "exc", e
     except Exception as e:
         where = innermost_rig_frame(e)
